@@ -72,6 +72,11 @@ def wrap(kind, level, inner, in_loop):
     if kind.startswith("begin:"):
         hl = HANDLERS[kind[6:]]
         return [("begin", body, [(h, [("printh", "h%d-%s-" % (level, h))]) for h in hl])]
+    if kind == "begin-hnested":
+        # the handler contains a block that raises and handles another error: afterwards error@1 is the outer error again
+        return [("begin", body, [("others", [("printh", "h%d-" % level),
+                                             ("begin", [("raise", "eb")], [("eb", [("printh", "n%d-" % level)])]),
+                                             ("printh", "h%d-again-" % level)])])]
     if kind == "begin-rethrow":
         return [("begin", body, [("others", [("printh", "h%d-" % level), ("raise", "eb")])])]
     if kind == "begin-hfatal":
@@ -110,10 +115,11 @@ def fail_wrappers(level, fe):
 
 
 def programs(tier):
-    wk = ["for", "while", "forall", "if"] + ["begin:" + h for h in HANDLERS] + ["begin-rethrow", "begin-hfatal", "begin-hbreak", "begin-hcontinue", "begin-hreturn"]
+    wk = ["for", "while", "forall", "if"] + ["begin:" + h for h in HANDLERS] + ["begin-rethrow", "begin-hfatal", "begin-hbreak", "begin-hcontinue", "begin-hreturn",
+                                                                               "begin-hnested"]
     if tier != "thorough":
         wk = ["for", "while", "forall", "if", "begin:none", "begin:ea", "begin:eb", "begin:dz", "begin:others", "begin:others+ea", "begin:eb+ea",
-              "begin-rethrow", "begin-hbreak", "begin-hreturn", "begin-hfatal", "begin-hcontinue"]
+              "begin-rethrow", "begin-hbreak", "begin-hreturn", "begin-hfatal", "begin-hcontinue", "begin-hnested"]
     maxd = 3
     for depth in range(0, maxd + 1):
         for chain in itertools.product(wk, repeat=depth):
